@@ -28,8 +28,6 @@ UNPROVED = [
     "C01.Entropy: all entropy-range theorems (information gain, MI, NMI, NCE/V, AMI) are about the real-number reading "
     "of the model's definitions; binary64 rounding (e.g. MI noise over the 1e-10 NMI floor, AMI with a denominator at "
     "rounding level) is covered by correspondence and the oracle only",
-    "C01.Entropy.emi_hypergeometric: the expected-MI loop equals the hypergeometric expectation over the loop's own "
-    "range of n_ij; that this range is the whole support (weights sum to 1) is not stated as a theorem",
 ]
 SUITES, _classifiers = SU.load_all()
 from suites import fixtures as _FX  # noqa: E402
